@@ -62,6 +62,58 @@ class HarnessError(Exception):
     """The generator/oracle is at fault (invalid input generated, tool missing ...)."""
 
 
+def isolated(fn, case, timeout=120):
+    """Run fn(case) in a forked child so that no state leaks between cases and a hang can be
+    killed.  -> (Result | None, status) with status in ok / timeout / crashed:<info>."""
+    import pickle
+    import select
+    import signal as _signal
+    r, w = os.pipe()
+    pid = os.fork()
+    if pid == 0:
+        try:
+            os.close(r)
+            try:
+                payload = pickle.dumps(("ok", fn(case)))
+            except BaseException as e:      # noqa
+                payload = pickle.dumps(("exc", f"{type(e).__name__}: {e}\n{traceback.format_exc()[-1500:]}"))
+            with os.fdopen(w, "wb") as f:
+                f.write(payload)
+        finally:
+            os._exit(0)
+    os.close(w)
+    chunks = []
+    deadline = time.time() + timeout
+    status = "ok"
+    with os.fdopen(r, "rb") as f:
+        while True:
+            left = deadline - time.time()
+            if left <= 0:
+                status = "timeout"
+                break
+            ready, _, _ = select.select([f], [], [], min(left, 1.0))
+            if ready:
+                data = os.read(f.fileno(), 1 << 20)
+                if not data:
+                    break
+                chunks.append(data)
+    if status == "timeout":
+        try:
+            os.kill(pid, _signal.SIGKILL)
+        except ProcessLookupError:
+            pass
+    os.waitpid(pid, 0)
+    if status == "timeout":
+        return None, "timeout"
+    try:
+        kind, val = pickle.loads(b"".join(chunks))
+    except Exception as e:
+        return None, f"crashed:{type(e).__name__}"
+    if kind == "exc":
+        return None, "crashed:" + val
+    return val, "ok"
+
+
 def case_digest(case) -> str:
     return hashlib.sha1(json.dumps(case, sort_keys=True, default=str).encode()).hexdigest()[:16]
 
